@@ -2,6 +2,7 @@ import RedkaModel.Proto
 import RedkaModel.Model.Inv
 import RedkaModel.Spec.Meta
 import RedkaModel.ScanJudge
+import RedkaModel.ConcJudge
 
 open Redka Redka.Proto
 
@@ -42,7 +43,9 @@ def judge (line : String) : String :=
         let inTx := mode == "tx"
         let sv := match Spec.check inTx op now pre post res with
           | some true => "1" | some false => "0" | none => "-"
-        let ks := String.intercalate "," (Spec.known inTx op now pre)
+        -- D14 (connection replaced after a cancelled transaction: `foreign_keys` off) is a
+        -- property of the connection, not of the operation; it is reported next to `Spec.known`
+        let ks := String.intercalate "," ((if !pre.fk then ["D14"] else []) ++ Spec.known inTx op now pre)
         let invPre := if (canon pre).invB then "1" else "0"
         let nv := match Spec.noTrace inTx op (canon pre) post res with
           | some true => "1" | some false => "0" | none => "-"
@@ -71,12 +74,68 @@ def judge (line : String) : String :=
     | _ => "? ERR bad header"
   | parts => s!"? ERR bad line ({parts.length} parts)"
 
+/-- `FAULT seq now | pre | what | result | post`: an operation or user transaction that was made to
+fail must report the failure and leave all six tables exactly as they were (C07). -/
+def judgeFault (line : String) : String :=
+  match line.splitOn " | " with
+  | [hdr, preS, _what, resS, postS] =>
+    match (hdr.splitOn " ").filter (· ≠ "") with
+    | [_, seq, _] =>
+      match runP pDump preS, runP pDump postS with
+      | .ok pre, .ok post =>
+        let same := decide ({ canon pre with fk := true } = { canon post with fk := true })
+        let reported := resS.trimAscii.toString != "ok"
+        let k := if !post.fk then "D14" else ""
+        s!"{seq} A={if same then 1 else 0} R={if reported then 1 else 0} F={if pre.fk == post.fk then 1 else 0} I={if (canon post).invB then 1 else 0} K={k}"
+      | .error e, _ => s!"{seq} ERR pre: {e}"
+      | _, .error e => s!"{seq} ERR post: {e}"
+    | _ => "? ERR bad fault header"
+  | parts => s!"? ERR bad fault line ({parts.length} parts)"
+
+/-- `CRASH seq now | n acked okRW okRO integrity … | now_1 op_1 ;; … | dump` (C09): the re-opened
+database must hold exactly the effects of the acknowledged operations plus all or none of the one
+in flight (compared at the level of the abstract keyspace against the model run from an empty
+database), satisfy the structural invariant, re-open in both modes and pass SQLite's check. -/
+def judgeCrash (line : String) : String :=
+  match line.splitOn " | " with
+  | [hdr, metaS, opsS, dumpS] =>
+    match (hdr.splitOn " ").filter (· ≠ ""), (metaS.splitOn " ").filter (· ≠ "") with
+    | [_, seq, nowS], (_nS :: ackS :: rwS :: roS :: integ :: _) =>
+      match nowS.toInt?, ackS.toNat?, runP pDump dumpS with
+      | some now, some acked, .ok rec =>
+        let opStrs := if opsS.trimAscii.toString.isEmpty then [] else opsS.splitOn " ;; "
+        let parsed := opStrs.map (fun s => runP (do let t ← pInt; let o ← pOp; pure (t, o)) s)
+        if parsed.any (fun r => match r with | .error _ => true | .ok _ => false) then s!"{seq} ERR ops"
+        else
+          let ops := parsed.filterMap (fun r => match r with | .ok x => some x | .error _ => none)
+          let states := ops.foldl (fun (acc : List DB) p =>
+            match acc.getLast? with
+            | some d => acc ++ [(Model.dbRun p.2 p.1 d).db]
+            | none => acc) [({} : DB)]
+          let a := Spec.abs now (canon rec)
+          let ok1 := match states[acked]? with | some d => decide (Spec.abs now d = a) | none => false
+          let ok2 := match states[acked + 1]? with | some d => decide (Spec.abs now d = a) | none => false
+          let reopen := rwS == "1" && roS == "1" && integ == "ok"
+          s!"{seq} S={if ok1 || ok2 then 1 else 0} I={if (canon rec).invB then 1 else 0} R={if reopen then 1 else 0} W={if ok1 then "acked" else if ok2 then "inflight" else "none"} K="
+      | _, _, .error e => s!"{seq} ERR dump: {e}"
+      | _, _, _ => s!"{seq} ERR header"
+    | _, _ => "? ERR bad crash header"
+  | parts => s!"? ERR bad crash line ({parts.length} parts)"
+
 partial def loop (h : IO.FS.Stream) (out : IO.FS.Stream) : IO Unit := do
   let line ← h.getLine
   if line.isEmpty then return ()
   let l := line.trimAsciiEnd.toString
   if l.startsWith "#" then
     out.putStrLn l
+  else if l.startsWith "CONC " then
+    out.putStrLn (ConcJudge.judge l)
+  else if l.startsWith "CONS " then
+    out.putStrLn (ConcJudge.judgeCons l)
+  else if l.startsWith "CRASH " then
+    out.putStrLn (judgeCrash l)
+  else if l.startsWith "FAULT " then
+    out.putStrLn (judgeFault l)
   else if l.startsWith "SCAN " then
     out.putStrLn (ScanJudge.judge l)
   else if !l.isEmpty then
